@@ -443,6 +443,18 @@ def check_reserved_win(ctx, res: Result):
             else:
                 st = "unknown"
             res.add("S-RESERVED", save.short, norm(n), key, st, "" if st == "ok" else f"the reserved key `{key}` is not written from the hyperedge's live {key} (value kind {vk!r})", loc(save, n))
+            # the reserved key is written on EVERY record of a weighted / temporal / multiplex hypergraph: a write that is skipped
+            # for some values (`if weight != 1:`) lets a stale entry of the same name in the user's metadata through
+            sv_ = ctx.view(save)
+            for iff in sv_.enclosing_all(n, (ast.If,)):
+                if not any(n is y for st_ in iff.body for y in ast.walk(st_)) and not any(n is y for st_ in iff.orelse for y in ast.walk(st_)):
+                    continue
+                t_i = sv_.inline(iff.test)
+                names_ = {x.id for x in ast.walk(t_i) if isinstance(x, ast.Name)} | {x.attr for x in ast.walk(t_i) if isinstance(x, ast.Attribute)}
+                about_kind = any("weighted" in nm or "type" in nm.lower() for nm in names_) or any(isinstance(x, ast.Call) and isinstance(x.func, ast.Name) and x.func.id == "isinstance" for x in ast.walk(t_i)) or any(isinstance(x, ast.Constant) and isinstance(x.value, str) and x.value in T.CONTAINERS for x in ast.walk(t_i))
+                value_dep = bool(names_ & {x.id for x in ast.walk(n.value) if isinstance(x, ast.Name)}) or any(isinstance(x, ast.Call) and isinstance(x.func, ast.Attribute) and x.func.attr == "get_weight" for x in ast.walk(t_i))
+                if not about_kind and value_dep:
+                    res.violation("S-RESERVED", save.short, norm(iff.test)[:80], key + ":always", f"the reserved key `{key}` is written only when `{norm(iff.test)[:60]}`: for the other records a `{key}` entry already present in the user's metadata (every hypergraph loaded from a text file has one) goes into the file instead and is read back as the {key}", loc(save, iff))
     if found == 0:
         raise AnalysisError("save_hypergraph: no reserved-key write recognised (idiom changed)")
 
@@ -720,6 +732,22 @@ def check_hgr(ctx, res: Result):
         # some edge-list growth in the same block
         blk = v.parent.get(id(v.stmt_of(w)))
         same = [e for e in grows.get(el_name, []) if v.parent.get(id(v.stmt_of(e))) is blk]
+        if not same:
+            # not side by side: still paired when, within the same iteration, every path from the weight goes on to an edge
+            # growth (or came from one)
+            lp_ = v.enclosing(w, (ast.For, ast.While))
+            wid = v.cfg_id(w)
+            if lp_ is not None and wid is not None:
+                end_ = v.cfg.by_ast.get(id(lp_)) if isinstance(lp_, ast.For) else v.cfg.by_ast.get(id(lp_.test))
+                for e in grows.get(el_name, []):
+                    eid = v.cfg_id(e)
+                    if eid is None or v.enclosing(e, (ast.For, ast.While)) is not lp_:
+                        continue
+                    if not v.cfg.reaches_without(wid, end_, {eid}) or v.cfg.dominates(eid, wid):
+                        same = [e]
+            if not same and any(v.enclosing(e, (ast.For, ast.While)) is lp_ for e in grows.get(el_name, [])):
+                res.unknown("S-HGR", load.short, norm(w), "paired", "the weight and the hyperedge are recorded on different paths of the same iteration", loc(load, w))
+                continue
         res.check(bool(same), "S-HGR", load.short, norm(w), "paired", "a weight is recorded without its hyperedge (weights and hyperedges get out of step)", loc(load, w))
     for e in grows.get(el_name, []):
         blk = v.parent.get(id(v.stmt_of(e)))
